@@ -28,6 +28,9 @@ func setupGenerator(converter *config.Converter, n *namer.Namer) (*generator, er
 		if err != nil {
 			return nil, err
 		}
+		// the names of the declared methods are taken: a generated helper
+		// method must not get one of them.
+		n.Register(cMethod.Name)
 	}
 
 	gen := generator{
